@@ -354,7 +354,7 @@ func runC14(r *mc.Run) {
 		depth = 8
 		r.SetBudget(10 * 60 * 1e9)
 	} else {
-		r.SetBudget(150 * 1e9)
+		r.SetBudget(300 * 1e9)
 	}
 	r.Bounds["depth_blocks"] = depth
 	r.Rule = "DFS over vote patterns x evidence timings (fresh, old by blocks only, by time only, by both, light-client attack) x later lock/unlock/weight/threshold requests; window 3, max missed 2, jail 60s, evidence max age 3 blocks / 20 s; oracle = reference signing-window automaton, exact slash amounts and totals, jail until expiry and thresholds, tombstone permanence"
